@@ -364,6 +364,31 @@ theorem len_eq (hw : WF h g) (l : Nat) : (h.hdr l).length = (g l).length := (hw.
 theorem in_iff (hw : WF h g) {a l : Nat} (hr : ∀ l, (h.hdr l).root ≠ some a) :
     (h.node a).list = some l ↔ a ∈ g l := hw.mem_iff hr
 
+/-- `In` asked of a nil handle is `false` for every list (the documented answer; never a panic) -/
+theorem elemIn_nil (l : Nat) : h.elemIn none l = false := rfl
+
+/-- `In` asked through a handle is membership in the sequence: for a nil handle false, for every
+    element that is not a sentinel true exactly for the list whose sequence contains it -/
+theorem elemIn_iff (hw : WF h g) {e : Option Nat} {l : Nat} (hr : ∀ a, e = some a → ∀ l, (h.hdr l).root ≠ some a) :
+    h.elemIn e l = true ↔ ∃ a, e = some a ∧ a ∈ g l := by
+  cases e with
+  | none => simp [Heap.elemIn]
+  | some a =>
+    have := in_iff hw (l := l) (hr a rfl)
+    simp only [Heap.elemIn, Bool.and_eq_true, beq_iff_eq, Option.some.injEq, exists_eq_left']
+    constructor
+    · intro hh; exact this.mp hh.2
+    · intro hm; have := this.mpr hm; exact ⟨by simp [this], this⟩
+
+/-- a detached or popped element (in no sequence) reports `In` false for every list, and so does nil -/
+theorem elemIn_detached (hw : WF h g) {e : Option Nat} (hr : ∀ a, e = some a → ∀ l, (h.hdr l).root ≠ some a)
+    (hm : ∀ a, e = some a → ∀ l, a ∉ g l) (l : Nat) : h.elemIn e l = false := by
+  cases hb : h.elemIn e l with
+  | false => rfl
+  | true =>
+    obtain ⟨a, ha, hin⟩ := (elemIn_iff hw hr).mp hb
+    exact absurd hin (hm a ha l)
+
 /-! ### 8. `Element.Swap` -/
 
 theorem elemSwap_nil (e : Nat) : h.elemSwap e none = some (h, false) := rfl
